@@ -882,6 +882,14 @@ class PosInterp:
             if fn is not None:
                 return fn
             for st in self.mod.tree.body:
+                if isinstance(st, ast.AnnAssign) and isinstance(st.target, ast.Name) and st.target.id == e.id and st.value is not None \
+                        and (isinstance(st.value, (ast.Dict, ast.List, ast.Set)) or (isinstance(st.value, ast.Call) and norm(st.value.func) in ('dict', 'list', 'set'))):
+                    # a mutable module-level table (`TOKEN_MODELS: dict[..] = {}`): one object per module for the lifetime of this interpreter
+                    gl_ = self.__dict__.setdefault('_module_globals', {})
+                    key_ = (self.mod.name, e.id)
+                    if key_ not in gl_:
+                        gl_[key_] = self.expr(st.value, {})
+                    return gl_[key_]
                 if isinstance(st, ast.Assign) and len(st.targets) == 1 and isinstance(st.targets[0], ast.Name) and st.targets[0].id == e.id:
                     v_ = st.value
                     re_names = {(al.asname or al.name) for im in self.mod.tree.body if isinstance(im, ast.Import) for al in im.names if al.name == 're'}
@@ -971,7 +979,7 @@ class PosInterp:
                 return getattr(base, e.attr)          # a method of a concrete text: every one of them is pure
             if isinstance(base, list) and e.attr in ('append', 'extend', 'pop', 'reverse', 'insert', 'clear', 'copy', 'index', 'remove', 'discard', 'add'):
                 return _ListAppend(base, e.attr)
-            if isinstance(base, dict) and e.attr in ('get', 'items', 'keys', 'values', 'pop', 'setdefault'):
+            if isinstance(base, dict) and e.attr in ('get', 'items', 'keys', 'values', 'pop', 'setdefault', 'update', 'clear', 'copy'):
                 return _DictMethod(base, e.attr)
             if base is None:
                 # what python does: the scenario reaches an attribute of None (a walk that ran off the end of the store, an absent child)
@@ -1107,6 +1115,15 @@ class PosInterp:
                     return list(f.d.values())
                 if f.how == 'pop':
                     return f.d.pop(*args)
+                if f.how == 'update':
+                    for a_ in args:
+                        f.d.update(a_ if isinstance(a_, dict) else dict(self.iter_of(a_, e)))
+                    f.d.update(kwargs)
+                    return None
+                if f.how == 'clear':
+                    return f.d.clear()
+                if f.how == 'copy':
+                    return dict(f.d)
                 return f.d.setdefault(*args)
             if isinstance(f, _ListAppend):
                 if f.how == 'append':
